@@ -39,13 +39,13 @@ func (c *Cluster) Dump() string {
 var timeType = reflect.TypeOf(time.Time{})
 
 type dumper struct {
-	b      *bytes.Buffer
-	c      *Cluster
-	node   int
-	ptrs   map[uintptr]int
-	chans  map[uintptr]string
-	conds  map[uintptr]string
-	depth  int
+	b     *bytes.Buffer
+	c     *Cluster
+	node  int
+	ptrs  map[uintptr]int
+	chans map[uintptr]string
+	conds map[uintptr]string
+	depth int
 }
 
 // Fields of Raft that are dumped elsewhere or carry no protocol state.
